@@ -94,6 +94,10 @@ def generate(rng, idx, tier, variant):
         if spec['kind'] == 'scripted':
             base, _ = S.gen_plan(rng, opts, spec, False, idx)
             plan['*'] = base
+            if rng.random() < 0.12 and not spec.get('dtype'):
+                # hooks / equations that call back into the library (copy the model, export it, evaluate an expression,
+                # solve a copy, make a call that is refused): solve() and the loop meet the same callbacks
+                base['cb'] = S.gen_callbacks(rng, spec, opts)
             m = len(positions)
             if faults and m:
                 slot = idx % (m + 2)
@@ -307,6 +311,9 @@ def execute(schedule, ctx):
             ctx.fault('interrupt-seam' if 'seam' in intr else 'interrupt-line')
             if lb is not None and lb.where:
                 ctx.probe(f'interrupt-at:{lb.where[0]}:{lb.where[1]}')
+        for what_, res_ in probes.get_ctl(A).callbacks:
+            ctx.fault('callback-into-library' if res_ == 'ok' else 'callback-into-library-raised')
+            ctx.probe('callback:' + what_)
         S.count_faults(ctx, probes.get_ctl(A).log, opts)
         ctx.count('passes', sum(1 for r in probes.get_ctl(A).log if r['hook'] == 'eval'))
         ctx.count('steps', len(probes.get_ctl(A).log))
